@@ -147,12 +147,12 @@ Definition exception_base (module : bytes) : list (term * term) :=
 Definition bin_of (s : estr) : term := TBin (estr_bytes s).
 Definition opt_bin (o : option estr) : term := match o with Some s => bin_of s | None => t_nil end.
 
-(* BTreeSet<OwnedTerm> collected from a sequence of values (from_values / FromIterator: stable sort, then of each
-   run of equal elements the last one is kept) *)
+(* BTreeSet<OwnedTerm> built by inserting the values one by one (from_values / FromIterator after fix commit
+   ac9580f): a value that compares Equal to a member is not inserted *)
 Fixpoint set_insert (e : term) (l : list term) : list term :=
   match l with
   | [] => [e]
-  | x :: r => match cmp_owned e x with Lt => e :: l | Eq => e :: r | Gt => x :: set_insert e r end
+  | x :: r => match cmp_owned e x with Lt => e :: l | Eq => l | Gt => x :: set_insert e r end
   end.
 Definition set_of_list (l : list term) : list term := fold_left (fun s e => set_insert e s) l [].
 
